@@ -3,20 +3,22 @@
 # scratch worktree: suite passes with the patch, demonstration passes clean / fails patched; then the owning check is
 # run against /repo with the patch applied (git apply ... ; git checkout -- .).
 import json, os, re, shutil, subprocess, sys
+SRC = sys.argv[1] if len(sys.argv) > 1 else "/tmp/seed-out"      # where the sub-agents left their work
+LETTERS = sys.argv[2] if len(sys.argv) > 2 else "AB"             # names given to the two changes of each property in seeded/
 head = subprocess.check_output(["git","-C","/repo","rev-parse","--short","HEAD"]).decode().strip()
 os.makedirs("/verif/seeded", exist_ok=True)
 rows = []
 for i in range(1, 21):
     pid = "C%02d" % i
-    for k in "AB":
-        src = "/tmp/seed-out/%s" % pid
+    for k, outk in zip("AB", LETTERS):
+        src = "%s/%s" % (SRC, pid)
         patch = "%s/patch%s.rebased.diff" % (src, k)
         rebased = os.path.exists(patch)
         if not rebased:
             patch = "%s/patch%s.diff" % (src, k)
         if not os.path.exists(patch):
             continue
-        v = subprocess.run(["/verif/tools/seed_verify.sh", pid, k, patch], capture_output=True, text=True).stdout.strip().splitlines()
+        v = subprocess.run(["/verif/tools/seed_verify.sh", pid, k, patch, src], capture_output=True, text=True).stdout.strip().splitlines()
         v = [l for l in v if l.startswith(pid)]
         vline = v[-1] if v else "NO OUTPUT"
         ok = ("demo-clean=[ok" in vline) and ("suite-ok-pkgs=3" in vline) and ("FAIL" in vline.split("demo-patched=")[-1])
@@ -24,7 +26,7 @@ for i in range(1, 21):
         classes = re.findall(r"class=(\S+) occurrences=(\d+)", t)
         races = "race:" in t
         detected = "VIOLATION" in t
-        name = "%s-%s" % (pid, k)
+        name = "%s-%s" % (pid, outk)
         rows.append((name, ok, detected, [c for c, _ in classes]))
         if not ok:
             print(name, "NOT KEPT (verification failed):", vline); continue
@@ -49,4 +51,4 @@ for i in range(1, 21):
         }
         json.dump(meta, open(d + "/meta.json", "w"), indent=1)
         print(name, "kept; detected=%s" % detected, [c for c, _ in classes][:4])
-json.dump([{"id": n, "verified": ok, "detected": det, "classes": cl} for n, ok, det, cl in rows], open("/verif/seeded/SUMMARY.json", "w"), indent=1)
+json.dump([{"id": n, "verified": ok, "detected": det, "classes": cl} for n, ok, det, cl in rows], open("/verif/seeded/SUMMARY-%s.json" % LETTERS, "w"), indent=1)
